@@ -83,7 +83,7 @@ def cases(draw):
             case["via_file"] = draw(st.booleans())
         case["ip_prefixed"] = draw(st.booleans())
         return case
-    g = draw(gg.general(bnodes=False, inst_props=(RDF_TYPE, RDF_TYPE, "http://ex.org/isA")))
+    g = draw(gg.general(bnodes=False, inst_props=(RDF_TYPE, RDF_TYPE, "http://ex.org/isA"), colon_locals=draw(st.integers(0, 2)) == 0))
     cfg = draw(gg.switches())
     cfg["instances_report_mode"] = "mixed"
     n = draw(st.integers(1, 3))
@@ -108,7 +108,7 @@ def label_text(lab):
     return "<%s%s>" % (LABEL_NS, lab["name"]) if lab["form"] == "full" else "ex:%s" % lab["name"]
 
 
-def run_and_compare(kw, triples, sel, label_of, case, labels, nt, extra=""):
+def run_and_compare(kw, triples, sel, label_of, case, labels, nt, extra="", own=None):
     cfg = case["cfg"]
     inst_prop = case["g"]["inst_prop"]
     thr = case["thr"]
@@ -138,6 +138,8 @@ def run_and_compare(kw, triples, sel, label_of, case, labels, nt, extra=""):
         return discard("label-collision")
     M = refmodel.Model(triples, sel, lo, inst_prop, cfg.get("inverse_paths", False))
     finds = oracle.compare(cdoc, M, lo, thr, cfg, twin=twin)
+    if own is not None:
+        finds = [f for f in finds if f.cat in own]
     bad = [f for f in finds if f.sig not in KNOWN]
     if bad:
         return violation("; ".join(map(repr, bad[:3])) + "\n" + extra + "\nexpected selection: %s\n--- output ---\n%s" % (sel, text[:3000]), labels, nt)
@@ -146,7 +148,7 @@ def run_and_compare(kw, triples, sel, label_of, case, labels, nt, extra=""):
     return ok(labels, nt)
 
 
-def check(case):
+def check(case, own=None):
     g = case["g"]
     triples = triples_from_json(g["triples"])
     inst_prop = g["inst_prop"]
@@ -186,7 +188,7 @@ def check(case):
                     labels.add("rdf-type-as-ordinary-property")
             if nt:
                 labels.add("nontrivial")
-            return run_and_compare(kw, triples, sel, label_of, case, labels, nt)
+            return run_and_compare(kw, triples, sel, label_of, case, labels, nt, own=own)
         # ---- shape map
         sel = {}
         label_of = {}
@@ -236,4 +238,4 @@ def check(case):
                 label_of[c] = refmodel.class_label(c)
         if nt:
             labels.add("nontrivial")
-        return run_and_compare(kw, triples, sel, label_of, case, labels, nt, extra="shape map: %s" % sm_text)
+        return run_and_compare(kw, triples, sel, label_of, case, labels, nt, extra="shape map: %s" % sm_text, own=own)
